@@ -1,5 +1,7 @@
 mod common;
 mod c15;
+mod c18;
+mod dist;
 
 fn main() {
     common::silence_panics();
@@ -13,6 +15,7 @@ fn main() {
             let (prop, cases, verd) = (&args[2], &args[3], &args[4]);
             match prop.as_str() {
                 "C15" => c15::replay(cases, verd),
+                "C18" => c18::replay(cases, verd, args.get(5).and_then(|s| s.parse().ok()).unwrap_or(2)),
                 _ => {
                     eprintln!("no replay table for {}", prop);
                     std::process::exit(2)
@@ -26,6 +29,7 @@ fn main() {
             let out = &args[5];
             match sub.as_str() {
                 "C15" => c15::record(seed, n, out),
+                "C18" => c18::record(&args[6], seed, n, out),
                 _ => {
                     let _ = (seed, n, out);
                     eprintln!("no recorder for {}", sub);
